@@ -56,6 +56,22 @@ open SM
 
 theorem gen_refusal : Gen.Session.refusedStreamClosedActively = true ∧ Gen.Session.recvEnqueueNonBlocking = true := by decide
 
+/-- **C12 (a told refusal leaves the bookkeeping as it found it).** In ANY state of a live session whose accept queue is
+full and in which no count update is in flight, the events of a refusal — the frame of an unknown stream `id` arrives
+(`recvNew`: refused), the stream is counted, then closed from this side (`csCAS`, tombstone, count--) — end with the id
+remembered as closed and the queue, the count and the rest of the table exactly as before: nothing drifts, whatever the
+number of refusals. -/
+theorem c12_refusal_events (s : St) (id : Nat) (hcl : s.closed = false) (hid : hasId id s.tbl = false)
+    (hfull : Gen.Session.acceptBacklog ≤ (s.accq.length : Int)) (hp : s.pendIncr = 0) (hd : s.pendDecr = 0) :
+    (step s (.recvNew id)).2 = .refused ∧
+    (let s' := run s [.recvNew id, .recvIncr, .csCAS id, .csTomb id, .csDecr]
+     s'.accq = s.accq ∧ s'.count = s.count ∧ s'.tbl = (id, .tomb) :: s.tbl ∧ s'.pendIncr = 0 ∧ s'.pendDecr = 0 ∧
+     s'.closed = false) := by
+  have hg := gen_refusal.1
+  have hdec : Gen.Session.closeStreamDecrs = 1 := by decide
+  refine ⟨by simp [step, hcl, hid, hfull, hg], ?_⟩
+  simp [run, step, hcl, hid, hfull, hg, hp, hd, setEnt, hdec]
+
 /-- a side whose accept queue holds `acceptBacklog` streams receives the first frame of yet another stream -/
 def fullSide : SO.Side :=
   { sm := { accq := List.replicate Gen.Session.acceptBacklog.toNat 9, tbl := [(9, .opn)], count := 1 } }
